@@ -687,3 +687,7 @@ def check(ctx) -> None:
     rule_b5(ctx, pl)
     rule_b6(ctx, reach)
     rule_b7(ctx, ctx.res.reachable(["synrbl.balancing.Balancer.rebalance"], ctx.graph))
+    # B8: a row never disappears because of *another* row of its batch (shared with C05-P1, de-duplication part)
+    from . import c05
+
+    c05.rule_p1(ctx, pl, "C06-B8", only_duplicates=True)
